@@ -6,7 +6,7 @@
    A ciphertext is the list of its columns, a column the list of its limbs (most significant first), a limb a list of
    n words.  The tensor of rank r has (r+1)(r+2)/2 columns, column  tcol (r+1) i j  (i <= j) holding the coefficient of
    s_i s_j with s_0 = 1. *)
-From PV Require Import Base.MachineInt Model.Znx Model.Limbs Model.LimbsBig Model.Flat Model.Ring Model.DftAbs Model.C05Cnv.
+From PV Require Import Base.MachineInt Model.Znx Model.Limbs Model.LimbsBig Model.Flat Model.Ring Model.DftAbs Model.C05Cnv Model.C05Spec.
 Open Scope Z_scope.
 
 (* ---------------- scalar helpers ---------------- *)
@@ -44,9 +44,7 @@ Definition big_nrm (fft : bool) (n rsz : nat) (rb ab lo : Z) (D : plimbs) : limb
 
 Definition colsel (g : list limbs) (i : nat) : limbs := nth i g [].
 Definition tcol (cols i j : nat) : nat := (i * cols - i * (i + 1) / 2 + j)%nat.
-(* the index pairs (i, j), i <= j < cols, in the order of the tensor's columns *)
-Definition tpairs (cols : nat) : list (nat * nat) :=
-  flat_map (fun i => map (fun j => (i, j)) (seq i (cols - i))) (seq 0 cols).
+(* the index pairs (i, j), i <= j < cols, in the order of the tensor's columns: C05Spec.tpairs *)
 
 Section Core.
 Variable fft : bool.
